@@ -146,7 +146,8 @@ def magic_to_dict(kwargs, separator="_") -> dict:
     for k, v in kwargs.items():
         keys = k.split(separator)
         if len(keys) == 1:
-            new_kwargs[keys[0]] = v
+            # nested dictionaries of the caller are merged into below, work on a copy
+            new_kwargs[keys[0]] = dict(v) if isinstance(v, dict) else v
         else:
             val = {separator.join(keys[1:]): v}
             if keys[0] in new_kwargs and isinstance(new_kwargs[keys[0]], dict):
